@@ -66,6 +66,12 @@ def _hyper_target(c, kind, n, bc='zero', order=1, scalar_mean=False):
     mean = c.vec('mu', n) if not scalar_mean else c.real('mu')
     if kind == 'cov': x = Gaussian(mean, cov=lambda s: 1 / s, geometry=n, name='x')
     elif kind == 'prec': x = Gaussian(mean, prec=lambda s: s, geometry=n, name='x')
+    elif kind in ('cov=C/s', 'prec=s*P'):
+        # a DENSE correlated matrix scaled by the hyper-parameter (accepted and sampled exactly by the legacy interface; the stored square root is a dense,
+        # non-diagonal array)
+        G = np.array([[1.0, 0.0], [0.6, 0.8]]) if n == 2 else np.tril(np.ones((n, n))) * 0.5 + np.eye(n)
+        Cm = G @ G.T
+        x = Gaussian(mean, cov=lambda s: Cm / s, geometry=n, name='x') if kind == 'cov=C/s' else Gaussian(mean, prec=lambda s: s * Cm, geometry=n, name='x')
     elif kind in ('GMRF', 'GMRF2D'):
         geom = cuqi.geometry.Continuous1D(n) if kind == 'GMRF' else cuqi.geometry.Image2D((int(round(n ** 0.5)),) * 2)      # (2-D: n is the number of pixels)
         x = GMRF(mean, lambda s: s, bc_type=bc, order=order, geometry=geom, name='x')
@@ -200,6 +206,10 @@ def jobs(tier):
             for n in ((2, 3) if q else (2, 3, 4)):
                 J.append(Job(f'{tag}.Conjugate:Gaussian:{kind}:n={n}', lambda c, i=iface, k=kind, n=n: conjugate_exact(c, i, k, n), 'Pbox', fl, extra=_extra, rtol=1e-4, timeout=600))
             J.append(Job(f'{tag}.Conjugate:Gaussian:{kind}:n=3:scalar_mean', lambda c, i=iface, k=kind: conjugate_exact(c, i, k, 3, scalar_mean=True), 'Pbox', fl, extra=_extra, rtol=1e-4, timeout=600))
+        if iface == 'leg':
+            for kind in ('cov=C/s', 'prec=s*P'):
+                for n in (2, 3):
+                    J.append(Job(f'{tag}.Conjugate:Gaussian:{kind}:dense_correlated:n={n}', lambda c, i=iface, k=kind, n=n: conjugate_exact(c, i, k, n), 'B', fl, nnum=4))
         for bc in ('zero', 'neumann', 'periodic'):
             for order in (1, 2):
                 if order == 2 and bc == 'neumann': continue
